@@ -97,6 +97,7 @@ func loadRepo(dir string, overlay map[string][]byte) (*Ctx, error) {
 	fnKeyMemo = map[*ssa.Function]string{}
 	chanFieldAliasMemo = map[string]string{}
 	dualSwapMemo = map[string][3]int{}
+	embeddedMemo = map[string]bool{}
 	permMemo = map[*ssa.Function][]string{}
 	acquiredMemo = map[*ssa.Function]lockset{}
 	// Enumerate functions: package members, methods of every named type (AllFunctions misses methods of
@@ -163,6 +164,7 @@ func loadRepo(dir string, overlay map[string][]byte) (*Ctx, error) {
 	fnKeyMemo = map[*ssa.Function]string{}
 	chanFieldAliasMemo = map[string]string{}
 	dualSwapMemo = map[string][3]int{}
+	embeddedMemo = map[string]bool{}
 	permMemo = map[*ssa.Function][]string{}
 	acquiredMemo = map[*ssa.Function]lockset{}
 	return c, nil
